@@ -226,7 +226,7 @@ def build_programs(root):
     # 150000 relocations): which reference is named must not depend on who gets there first
     for nm, extra, fail in (("undef-same-symbol", [], True), ("warn-same-symbol", ["--warn-unresolved-symbols"], False)):
         d = os.path.join(root, nm); os.makedirs(d)
-        heavy = ".globl heavy\n.text\nheavy:\n" + "    call helper\n" * 150000 + "    call missing_everywhere\n    ret\n"
+        heavy = ".globl heavy\n.text\nheavy:\n" + "    call helper\n" * 1200000 + "    call missing_everywhere\n    ret\n"
         light = ".globl light\n.text\nlight:\n    call missing_everywhere\n    ret\n.globl helper\nhelper: ret\n"
         objs = [_main(d, ["heavy", "light"]), _asm(d, "heavy", heavy), _asm(d, "light", light)]
         P(nm, "layout" if fail else "warn", objs, extra=extra, fail=fail, k=2)
